@@ -44,7 +44,9 @@ bool DyndepLoader::LoadDyndeps(Node* node, DyndepFile* ddf,
     return false;
 
   // Update each edge that specified this node as its dyndep binding.
-  std::vector<Edge*> const& out_edges = node->out_edges();
+  // Iterate over a copy: UpdateEdge() adds out-edges to the nodes it splices
+  // in as implicit inputs, and the dyndep file may name itself as one.
+  const std::vector<Edge*> out_edges = node->out_edges();
   for (Edge* edge : out_edges) {
     if (edge->dyndep_ != node)
       continue;
